@@ -6,7 +6,7 @@ import random
 import zlib
 
 import common as C
-from cli_args import cli_argv
+from cli_args import add_harmless, cli_argv, pool_facts, POOL_SIZES
 
 US = 10**6
 EPS = 10_000            # 10 ms of slack on every timed clause (virtual time is exact; this only absorbs jitter)
@@ -32,6 +32,47 @@ def decorate(sc, prof):
     sc = decorate_flavour(sc, prof)
     sc = decorate_wire(sc, prof, random.Random(h ^ 0x5A17E))
     sc = decorate_mw(sc, prof, random.Random(h ^ 0x3C0FFEE))
+    sc = decorate_config(sc, prof, random.Random(h ^ 0xC0F16))
+    return sc
+
+
+# --------------------------------------------------------------------------------------------- fifth stage: how the worker is started
+def decorate_config(sc, prof, rr):
+    """prof: cfg_p (default .6), api_p (default .15).  Touches nothing but the way the Receiver gets its configuration; the
+    Receiver the scenario describes (A, P, N, wait_tasks_timeout, acknowledge type) is the same.
+      command-line scenarios (sc["cli"]): with probability cfg_p further worker options that exist in taskiq/cli/worker/args.py
+        and configure something else than the Receiver are mixed into the argv, in any position and either spelling
+        (`--opt value`, `--opt=value`, short forms): the size of the pool that runs sync functions (--max-threadpool-threads,
+        --max-process-pool-processes with and without --use-process-pool), --workers, --shutdown-timeout, --hardkill-count,
+        --max-fails, --log-level, --log-format, --no-configure-logging, --tasks-pattern, --fs-discover, --reload,
+        --do-not-use-gitignore, module names.
+      directly configured scenarios that taskiq.api.run_receiver_task can express (no max_tasks_to_execute, no
+        wait_tasks_timeout): with probability api_p the worker is started through the real run_receiver_task
+        (sc["api"] = its keyword arguments: max_async_tasks, max_prefetch, ack_time, sync_workers, use_process_pool, ...)."""
+    if sc.get("cli") is not None:
+        if rr.random() < prof.get("cfg_p", .6):
+            sc["cli"], _ = add_harmless(sc["cli"], rr)
+    elif sc["N"] is None and sc.get("wtt_us") is None and rr.random() < prof.get("api_p", .15):
+        A = sc["A"]
+        kw = dict(max_async_tasks=rr.choice([0, -1]) if A is None else A)
+        if sc["P"] or rr.random() < .5:
+            kw["max_prefetch"] = sc["P"]
+        if sc["ack_type"] is not None or rr.random() < .3:
+            kw["ack_time"] = sc["ack_type"]
+        if rr.random() < .65:
+            kw["sync_workers"] = rr.choice(POOL_SIZES)
+        elif rr.random() < .3:
+            kw["sync_workers"] = None
+        if rr.random() < .12:
+            kw["use_process_pool"] = True
+        elif rr.random() < .2:
+            kw["use_process_pool"] = False
+        for k in ("validate_params", "propagate_exceptions"):
+            if rr.random() < .2:
+                kw[k] = True
+        if rr.random() < .2:
+            kw["run_startup"] = False
+        sc["api"] = kw
     return sc
 
 
@@ -275,6 +316,16 @@ def mw_pre_fails(m):
     return any(d.get("pre", {}).get("fail") for d in m.get("mw") or [])
 
 
+def ack_in_quantifier(m):
+    """messages an exactly-one-acknowledgement clause speaks about: well-formed, known task, delivered with an acknowledge
+    callback, no failing middleware hook (hook failure is outside the quantifier; a failing post_save hook is swallowed by the
+    code but stays exempt), result-backend failure = an ordinary exception (not CancelledError / another BaseException)"""
+    return (m["kind"] == "ok" and m.get("ack", "none") != "none" and not m.get("probe")
+            and not (m.get("pre_fail") or m.get("post_fail") or m.get("onerr_fail") or m.get("psave_fail"))
+            and m.get("fail_exc") not in ("cancel", "base")
+            and not any(s.get("fail") for d in m.get("mw") or [] for s in d.values()))
+
+
 def count_inputs(rep, sc):
     """evidence distribution of the second-stage input kinds"""
     rep.count("input-flavour:" + sc.get("flavour", "base"))
@@ -313,6 +364,27 @@ def count_inputs(rep, sc):
             rep.count("wire:nested-json-argument")
         if w.get("top"):
             rep.count("wire:extra-top-level-field")
+    if sc.get("cli") is not None:
+        pf = pool_facts(sc["cli"])
+        if pf["threads"] is not None and not pf["process_pool"]:
+            rep.count("config:cli-sync-pool-size-given:--max-threadpool-threads")
+        if pf["procs"] is not None:
+            rep.count("config:cli-sync-pool-size-given:--max-process-pool-processes" +
+                      ("+--use-process-pool" if pf["process_pool"] else "-but-thread-pool-in-use"))
+        known = ("--receiver", "--ack-type", "--max-async-tasks", "--max-prefetch", "--max-tasks-per-child", "--wait-tasks-timeout",
+                 "--no-parse", "--no-propagate-errors")
+        more = [t.partition("=")[0] for t in sc["cli"][1:] if t.startswith("-") and not t.lstrip("-").replace(".", "", 1).isdigit()
+                and t.partition("=")[0] not in known]
+        rep.count("config:cli-worker-options-beside-the-receiver's:%s" % (min(len(more), 5) if len(more) < 5 else "5+"))
+        for t in more:
+            rep.count("config:cli-option:" + t)
+    if sc.get("api") is not None:
+        a = sc["api"]
+        rep.count("config:api-sync_workers=%s" % ("given" if a.get("sync_workers") else "default"))
+        if a.get("use_process_pool"):
+            rep.count("config:api-use_process_pool")
+    if sc.get("stop_on"):
+        rep.count("stop-relative-to-event:%s" % sc["stop_on"]["tag"])
     if sc.get("mws"):
         rep.count("middlewares:%d-extra" % len(sc["mws"]))
         for mw in sc["mws"]:
@@ -330,13 +402,14 @@ def count_inputs(rep, sc):
 
 
 def gen_scenario(r, prof):
-    """prof: dict(limited_only, backlog, never, stop_p, n_p, ends_p, probe, faults, wtt_p, slowcancel, abort_p, aw_p, outage_p, wire_p, mw_p)"""
+    """prof: dict(limited_only, backlog, never, stop_p, n_p, ends_p, probe, faults, wtt_p, slowcancel, abort_p, equal_p, A_choices, P_choices, aw_p, outage_p,
+    wire_p, mw_p, cfg_p, api_p)"""
     return decorate(gen_base(r, prof), prof)
 
 
 def gen_base(r, prof):
-    A = r.choice([1, 1, 2, 2, 3, 4] if prof.get("limited_only") else [None, 0, 1, 1, 1, 2, 2, 3, 4])
-    P = r.choice([0, 0, 1, 1, 2, 3, 4])
+    A = r.choice(prof.get("A_choices") or ([1, 1, 2, 2, 3, 4] if prof.get("limited_only") else [None, 0, 1, 1, 1, 2, 2, 3, 4]))
+    P = r.choice(prof.get("P_choices") or [0, 0, 1, 1, 2, 3, 4])
     a_eff = A if A else 4
     N = r.choice([1, 2, 2, 3, 4, 5, 6]) if r.random() < prof.get("n_p", .25) else None
     wtt = r.choice([0, 500_000, 2 * US, 3 * US]) if r.random() < prof.get("wtt_p", .3) else None
@@ -354,8 +427,11 @@ def gen_base(r, prof):
     if r.random() < .5:     # the sentinel-looking payload first in half of the scenarios that have malformed messages
         pays.remove(b"-1")
         pays.insert(0, b"-1")
+    # (opt-in per profile: no random draw without the key) lock-step scenarios: the messages arrive at one instant and most of
+    # them take the same time, so several running tasks finish in the same event-loop iteration and several slots free at once
+    eq = r.choice([50_000, 300_000, US, US, 3 * US]) if prof.get("equal_p") and r.random() < prof["equal_p"] else None
     for i in range(n):
-        t += r.choice([0, 0, 0, 0, 1, 2]) if burst else r.choice([0, 0, 0, 100_000, 500_000, 2 * US, 300_000]) + r.choice([0, 0, 1, 3])
+        t += (0 if r.random() < .9 else 1) if eq is not None else r.choice([0, 0, 0, 0, 1, 2]) if burst else r.choice([0, 0, 0, 100_000, 500_000, 2 * US, 300_000]) + r.choice([0, 0, 1, 3])
         kind = r.choices(["ok", "bad", "unk"], [8, 1, 1])[0] if prof.get("faults", True) else "ok"
         style = "sync" if r.random() < .12 else "async"
         dur = r.choice(durs)
@@ -365,6 +441,8 @@ def gen_base(r, prof):
             dur = -1
             style = "async"
             never += 1
+        if eq is not None and style == "async" and dur >= 0 and r.random() < .85:
+            dur = eq
         if style == "sync":
             dur = 0
         out = r.choice(["ret", "ret", "ret", "raise", "nores", "base"]) if prof.get("faults", True) else "ret"
@@ -442,6 +520,57 @@ def gen_base(r, prof):
     return sc
 
 
+def gen_slow_cancel_shutdown(r, prof):
+    """Scenario family: the shutdown trigger (stop request, max-tasks budget, end of the stream) falls before or into the
+    period in which an accepted task whose `timeout` label has fired is still handling its cancellation (the body keeps
+    awaiting in `except CancelledError` for cleanup_us).  A stop request can be placed relative to something that happens in
+    the run: sc["stop_on"] = dict(tag, msg, plus_us) = `plus_us` after the first raw-log entry (tag, msg) - here the entry of
+    that message's body or the begin of its clean-up - because the instant at which a queued message starts is decided by the
+    worker, not by the scenario.  Own random stream (the caller passes its own generator), then the shared later stages."""
+    sc = gen_base(r, dict(prof, never=0, probe=False))
+    msgs = sc["msgs"]
+    cand = [i for i, m in enumerate(msgs) if m["kind"] == "ok" and m["style"] == "async" and m["dur"] > 0 and not m.get("pre_fail")]
+    if not cand:
+        oks = [i for i, m in enumerate(msgs) if m["kind"] == "ok" and not m.get("pre_fail")]
+        if not oks:
+            return decorate(sc, prof)
+        i = r.choice(oks)
+        msgs[i].update(style="async", dur=r.choice([300_000, US, 3 * US]))
+        sc["horizon_us"] += msgs[i]["dur"]
+        cand = [i]
+    k = r.random()
+    slow = sorted(r.sample(cand, min(len(cand), r.choice([1, 1, 1, 2, 3]))))
+    if k >= .5:
+        slow = sorted(set(slow) | {cand[-1]})      # budget / end of stream: the last candidate is one of them
+    for i in slow:
+        m = msgs[i]
+        old = m.get("cleanup_us", 0)
+        m["tlabel_us"] = r.choice([m["dur"] // 2, m["dur"] // 4 or 1, 50_000 if m["dur"] > 50_000 else m["dur"] // 2, 1])
+        m["cleanup_us"] = r.choice([300_000, US, US, 2 * US, 3 * US])
+        sc["horizon_us"] += m["cleanup_us"] - old
+    i = r.choice(slow)
+    m = msgs[i]
+    if k < .5:
+        sc["stop_us"] = None
+        if r.random() < .6:
+            sc["stop_on"] = dict(tag="body.cleanup", msg=i, plus_us=r.choice([0, 0, 1, 1000, 50_000, m["cleanup_us"] // 4, m["cleanup_us"] // 2]))
+        else:
+            sc["stop_on"] = dict(tag="body.in", msg=i, plus_us=r.choice([0, 1, m["tlabel_us"] // 2, m["tlabel_us"], m["tlabel_us"] + 1]))
+        sc["horizon_us"] += sum(x["dur"] + x.get("cleanup_us", 0) for x in msgs if x["dur"] > 0)    # the stop instant is not known here
+    elif k < .75:
+        sc["N"] = cand[-1] + 1          # the budget is reached when the last slow-cancelling message is taken
+        if r.random() < .7:
+            sc["stop_us"] = None
+    else:
+        sc["ends"] = True
+        if r.random() < .7:
+            sc["stop_us"] = None
+    if sc.get("cli") is not None:
+        sc["cli"] = cli_argv(dict(ack_type=sc["ack_type"], A=sc["A"], a_spelling=r.choice([0, -1]), P=sc["P"], N=sc["N"],
+                                  wtt=None if sc["wtt_us"] is None else sc["wtt_us"] / 1e6))
+    return decorate(sc, prof)
+
+
 def limited(sc):
     return sc["A"] is not None and sc["A"] > 0
 
@@ -475,6 +604,7 @@ class Facts:
         self.cbstart, self.cbend, self.cbdone = times("cb.start"), times("cb.end"), times("cb.done")
         self.bodyin, self.bodyout, self.acks = times("body.in"), times("body.out"), times("ack")
         self.ackend = times("ack.end")       # `ack` = the ack callable was invoked, `ack.end` = the acknowledgement completed
+        self.save, self.saveend = times("save"), times("save.end")     # set_result entered / the attempt has completed
         N = sc["N"]
         self.budget_t = self.takes[N - 1][0] if N and len(self.takes) >= N else None
         cands = [x for x in (self.stop_t, self.budget_t, self.brk_end_t) if x is not None]
@@ -568,7 +698,8 @@ def acceptance(ctx, rep, label, scs, obss, check):
     for k in keep:
         if k not in badset:
             coverage(rep, obss[k]["lts"])
-            rep.count("config:via-command-line" if scs[k].get("cli") is not None else "config:direct")
+            rep.count("config:via-command-line" if scs[k].get("cli") is not None else
+                      "config:via-run_receiver_task" if scs[k].get("api") is not None else "config:direct")
     rep.traces += len(keep) - len(bad)
     return badk, fails
 
